@@ -308,8 +308,12 @@ def write_evidence(prop, tier, seed, results, wall, violations, inconclusive):
         covers = [(c["desc"], c["status"]) for c in r["checks"] if kani.is_cover(c)]
         n_fail = r["failed"] or 0
         tot = r["total"] or 0
-        obligations += tot
-        discharged += tot - n_fail
+        never = [(d, s) for d, s in covers if d.startswith("NEVER:")]
+        never_ok = [1 for d, s in never if s in ("UNSATISFIABLE", "UNREACHABLE")]
+        # obligations = CBMC property checks (panics, overflow, pointer safety, debug assertions,
+        # unwinding assertions) + the harness's own oracle conditions (NEVER covers)
+        obligations += tot + len(never)
+        discharged += (tot - n_fail) + len(never_ok)
         solver_s += r["solver_s"]
         funcs.update(h.funcs)
         stubs.update(r["stubs"])
@@ -323,7 +327,7 @@ def write_evidence(prop, tier, seed, results, wall, violations, inconclusive):
             "bounds": h.bounds, "cbmc_checks": tot, "cbmc_checks_failed": n_fail,
             "expected_failures": v.get("expected_failures", 0),
             "covers_reach_satisfied": len(reach_sat), "covers_reach_total": len(reach),
-            "covers_never_unsat": len([1 for d, s in covers if d.startswith("NEVER:") and s != "SATISFIED"]),
+            "oracle_conditions": len(never), "oracle_conditions_unsatisfiable": len(never_ok),
             "solver_s": round(r["solver_s"], 2), "solver_calls": r["solver_calls"],
             "sat_vars": r["vars"], "sat_clauses": r["clauses"],
             "verification_time_s": r["vtime"], "wall_s": round(r["wall_s"], 1),
